@@ -1,8 +1,489 @@
-// C11 harness part (stub until built)
-use crate::verif::vx::report::Report;
+// C11: restarting speaker defers selection until every helper sent EOR /
+// dropped / re-established without the family, or the timer fires.
+//
+// Explicit-state BFS over histories of peer-established / End-of-RIB /
+// peer-withdrawn / timer events interleaved with route activity.  The machine
+// under test is the real `gr::RestartingDeferral` driven through the daemon's
+// own glue: `PeerSession::process_effects` (GrSessionEstablished /
+// GrEorReceived), the PeerWithdrawn sequence of `PeerSession::run`,
+// `gr_selection_deferral_timer_expired` and `process_restarting_outputs`,
+// against a real `TableManager` (2 shards) observed by a registered peer
+// channel.
 
-pub(crate) fn run(_replay: Option<&str>) -> Report {
+use super::super::*;
+use super::common::*;
+use crate::verif::vx::bfs::{self, BfsCfg, Model};
+use crate::verif::vx::report::Report;
+use std::collections::{BTreeMap, BTreeSet};
+use std::net::{IpAddr, Ipv4Addr};
+
+fn fams(n: usize) -> Vec<Family> {
+    [Family::IPV4, Family::IPV6, Family::IPV4_MC][..n].to_vec()
+}
+fn fkey(f: &Family) -> u32 {
+    ((f.afi() as u32) << 8) | f.safi() as u32
+}
+fn fname(f: &Family) -> &'static str {
+    match *f {
+        Family::IPV4 => "v4",
+        Family::IPV6 => "v6",
+        _ => "v4mc",
+    }
+}
+fn net(f: &Family, k: u8) -> packet::Nlri {
+    match *f {
+        Family::IPV6 => packet::Nlri::V6(packet::bgp::Ipv6Net { addr: std::net::Ipv6Addr::new(0x2001, 0xdb8, k as u16, 0, 0, 0, 0, 0), mask: 48 }),
+        _ => packet::Nlri::V4(packet::bgp::Ipv4Net { addr: Ipv4Addr::new(10, k, 0, 0), mask: 24 }),
+    }
+}
+fn peer_addr(p: usize) -> IpAddr {
+    IpAddr::V4(Ipv4Addr::new(10, 9, 0, 1 + p as u8))
+}
+
+#[derive(Clone, Debug)]
+enum Op {
+    Est(usize, Vec<Family>),
+    Eor(usize, Family),
+    Withdrawn(usize),
+    Timer,
+    InsertLocal(Family, u8),
+    InsertPeer(usize, Family, u8),
+    RemovePeer(usize, Family, u8),
+}
+
+fn op_name(o: &Op) -> String {
+    match o {
+        Op::Est(p, fs) => format!("est(p{},{{{}}})", p + 1, fs.iter().map(fname).collect::<Vec<_>>().join(",")),
+        Op::Eor(p, f) => format!("eor(p{},{})", p + 1, fname(f)),
+        Op::Withdrawn(p) => format!("withdrawn(p{})", p + 1),
+        Op::Timer => "timer".into(),
+        Op::InsertLocal(f, k) => format!("insert(local,{},n{})", fname(f), k),
+        Op::InsertPeer(p, f, k) => format!("insert(p{},{},n{})", p + 1, fname(f), k),
+        Op::RemovePeer(p, f, k) => format!("remove(p{},{},n{})", p + 1, fname(f), k),
+    }
+}
+fn op_kind(o: &Op) -> &'static str {
+    match o {
+        Op::Est(..) => "est",
+        Op::Eor(..) => "eor",
+        Op::Withdrawn(..) => "withdrawn",
+        Op::Timer => "timer",
+        Op::InsertLocal(..) | Op::InsertPeer(..) => "insert",
+        Op::RemovePeer(..) => "remove",
+    }
+}
+
+pub(crate) struct DeferModel {
+    name: String,
+    /// configured GR families per peer (empty = peer without graceful restart)
+    config: Vec<Vec<Family>>,
+    families: Vec<Family>,
+    ops: Vec<Op>,
+}
+
+#[derive(PartialEq, Clone, Copy, Debug)]
+enum Phase {
+    Awaiting,
+    Deferring,
+    Done,
+}
+
+pub(crate) struct Sys {
+    rt: tokio::runtime::Runtime,
+    global: GlobalHandle,
+    tables: TableHandle,
+    obs: mpsc::UnboundedReceiver<ToPeerEvent>,
+    contexts: Vec<Arc<std::sync::Mutex<PeerContext>>>,
+    up: Vec<bool>,
+    sources: Vec<Arc<table::Source>>,
+    // reference model
+    pending: BTreeMap<usize, BTreeSet<u32>>,
+    phase: Phase,
+    deferred: BTreeSet<u32>,
+    // accounting
+    /// per prefix: (content last announced, how many times that same content was announced)
+    ann: BTreeMap<(u32, String), (String, u32)>,
+    broken: BTreeSet<String>,
+}
+
+fn mk_context() -> Arc<std::sync::Mutex<PeerContext>> {
+    let fsm = crate::fsm::PeerFsm::new(u32::from(Ipv4Addr::new(10, 0, 0, 254)), 65000, vec![], 90, 0, FnvHashMap::default());
+    let conn_arbiter = Arc::new(std::sync::Mutex::new(ConnArbiter::new(fsm)));
+    Arc::new(std::sync::Mutex::new(PeerContext {
+        conn_arbiter,
+        active_connect_cancel_tx: None,
+        active_connect_join_handle: None,
+        gr_state: crate::gr::GrState::new(),
+        gr_restart_timer: None,
+        llgr_family_timers: FnvHashMap::default(),
+        rtc_state: crate::rtc::RtcState::new(),
+        rtc_eor_timer: None,
+    }))
+}
+
+fn mk_source(p: usize) -> Arc<table::Source> {
+    Arc::new(table::Source::new(
+        peer_addr(p),
+        IpAddr::V4(Ipv4Addr::new(10, 9, 0, 254)),
+        65001 + p as u32,
+        65000,
+        Ipv4Addr::new(10, 9, 0, 1 + p as u8),
+        table::PeerRole::Ebgp,
+    ))
+}
+
+fn attrs() -> Arc<Vec<packet::Attribute>> {
+    Arc::new(vec![
+        packet::Attribute::new_with_value(packet::Attribute::ORIGIN, 0).unwrap(),
+        packet::Attribute::empty_as_path(),
+    ])
+}
+
+impl DeferModel {
+    fn released(&self, sys: &Sys) -> BTreeSet<u32> {
+        if sys.phase == Phase::Done {
+            return sys.deferred.clone();
+        }
+        sys.deferred.iter().filter(|f| !sys.pending.values().any(|s| s.contains(f))).copied().collect()
+    }
+}
+
+impl Model for DeferModel {
+    type Sys = Sys;
+    fn name(&self) -> String {
+        self.name.clone()
+    }
+    fn n_ops(&self) -> usize {
+        self.ops.len()
+    }
+    fn op_name(&self, op: usize) -> String {
+        op_name(&self.ops[op])
+    }
+
+    fn init(&self) -> Sys {
+        let rt = runtime();
+        let global = make_global();
+        let tables = make_tables(2);
+        // exactly what Global::serve does at start-up with --graceful-restart
+        let gr_peers: fnv::FnvHashMap<IpAddr, Vec<Family>> =
+            self.config.iter().enumerate().filter(|(_, c)| !c.is_empty()).map(|(p, c)| (peer_addr(p), c.clone())).collect();
+        let (deferral, init_outputs) = crate::gr::RestartingDeferral::new(gr_peers, Some(Duration::from_secs(360)));
+        let mut deferred = BTreeSet::new();
+        if !deferral.is_completed() {
+            for output in &init_outputs {
+                if let crate::gr::RestartingOutput::DeferFamilies(families) = output {
+                    tables.start_deferral_families(families);
+                    deferred.extend(families.iter().map(fkey));
+                }
+            }
+            rt.block_on(async { global.write().await.selection_deferral = Some(deferral) });
+        }
+        let obs = tables.register_peer(IpAddr::V4(Ipv4Addr::new(10, 9, 9, 9)), FnvHashSet::default(), |_| {});
+        let mut pending = BTreeMap::new();
+        for (p, c) in self.config.iter().enumerate() {
+            if !c.is_empty() {
+                pending.insert(p, c.iter().map(fkey).collect());
+            }
+        }
+        let phase = if pending.is_empty() { Phase::Done } else { Phase::Awaiting };
+        Sys {
+            rt,
+            global,
+            tables,
+            obs,
+            contexts: (0..self.config.len()).map(|_| mk_context()).collect(),
+            up: vec![false; self.config.len()],
+            sources: (0..self.config.len()).map(mk_source).collect(),
+            pending,
+            phase,
+            deferred,
+            ann: BTreeMap::new(),
+            broken: BTreeSet::new(),
+        }
+    }
+
+    fn step(&self, sys: &mut Sys, op: usize, out: &mut Vec<(String, String)>) -> bool {
+        let o = &self.ops[op];
+        let kind = op_kind(o);
+        let mut cur: Vec<(String, String)> = Vec::new();
+        let pre_phase = sys.phase;
+        match o {
+            Op::Est(p, fs) => {
+                if sys.up[*p] {
+                    return false;
+                }
+                sys.up[*p] = true;
+                sys.sources[*p] = mk_source(*p);
+                let negotiated_gr = if fs.is_empty() {
+                    None
+                } else {
+                    Some(NegotiatedGr { families: fs.clone(), restart_time: Duration::from_secs(90), notification_enabled: false })
+                };
+                let (global, tables, ctx) = (sys.global.clone(), sys.tables.clone(), sys.contexts[*p].clone());
+                let addr = peer_addr(*p);
+                sys.rt.block_on(async {
+                    let mut session = PeerSession::new_for_test(addr, ctx, tables);
+                    session.process_effects(vec![GlobalEffect::GrSessionEstablished { negotiated_gr }], &global).await;
+                });
+                // reference
+                if sys.phase != Phase::Done && sys.pending.contains_key(p) {
+                    if fs.is_empty() {
+                        sys.pending.remove(p);
+                    } else {
+                        sys.pending.insert(*p, fs.iter().map(fkey).collect());
+                        if sys.phase == Phase::Awaiting {
+                            sys.phase = Phase::Deferring;
+                        }
+                    }
+                }
+            }
+            Op::Eor(p, f) => {
+                if !sys.up[*p] {
+                    return false;
+                }
+                let (global, tables, ctx) = (sys.global.clone(), sys.tables.clone(), sys.contexts[*p].clone());
+                let addr = peer_addr(*p);
+                let fam = *f;
+                sys.rt.block_on(async {
+                    let mut session = PeerSession::new_for_test(addr, ctx, tables);
+                    session.process_effects(vec![GlobalEffect::GrEorReceived { family: fam }], &global).await;
+                });
+                if sys.phase == Phase::Deferring {
+                    if let Some(s) = sys.pending.get_mut(p) {
+                        s.remove(&fkey(f));
+                        if s.is_empty() {
+                            sys.pending.remove(p);
+                        }
+                    }
+                }
+            }
+            Op::Withdrawn(p) => {
+                // a session of the peer ended (established or a failed attempt)
+                if sys.up[*p] {
+                    sys.tables.unregister_peer(peer_addr(*p), &self.families, &[]);
+
+                }
+                sys.up[*p] = false;
+                let (global, tables) = (sys.global.clone(), sys.tables.clone());
+                let addr = peer_addr(*p);
+                sys.rt.block_on(async {
+                    // the sequence at the end of PeerSession::run
+                    let rd_outputs = {
+                        let mut server = global.write().await;
+                        if let Some(rd) = &mut server.selection_deferral {
+                            rd.process(crate::gr::RestartingInput::PeerWithdrawn(addr))
+                        } else {
+                            vec![]
+                        }
+                    };
+                    let _ = process_restarting_outputs(rd_outputs, &global, &tables).await;
+                });
+                if sys.phase != Phase::Done {
+                    sys.pending.remove(p);
+                }
+            }
+            Op::Timer => {
+                if sys.phase != Phase::Deferring {
+                    return false; // the timer only runs once the first helper established
+                }
+                let (global, tables) = (sys.global.clone(), sys.tables.clone());
+                sys.rt.block_on(async { gr_selection_deferral_timer_expired(global, tables).await });
+                sys.pending.clear();
+                sys.phase = Phase::Done;
+            }
+            Op::InsertLocal(f, k) => {
+                sys.tables.insert_route(table::Source::local(), *f, packet::PathNlri::new(net(f, *k)), None, attrs(), None, 0);
+            }
+            Op::InsertPeer(p, f, k) => {
+                if !sys.up[*p] {
+                    return false;
+                }
+                sys.tables.insert_route(sys.sources[*p].clone(), *f, packet::PathNlri::new(net(f, *k)), None, attrs(), None, 0);
+            }
+            Op::RemovePeer(p, f, k) => {
+                if !sys.up[*p] {
+                    return false;
+                }
+                sys.tables.remove_route(sys.sources[*p].clone(), *f, packet::PathNlri::new(net(f, *k)), None, 0);
+            }
+        }
+        if sys.phase != Phase::Done && sys.pending.is_empty() {
+            sys.phase = Phase::Done;
+        }
+        let released = self.released(sys);
+
+        // ---- observe what reached the neighbours during this step
+        let content = |paths: &[table::Path]| -> String {
+            paths.iter().map(|p| format!("{}#{};", p.source.remote_addr, p.local_path_id)).collect()
+        };
+        while let Ok(ev) = sys.obs.try_recv() {
+            if let ToPeerEvent::NlriChange(c) = ev {
+                let key = (fkey(&c.family), format!("{}", c.net));
+                if c.current_paths.is_empty() {
+                    sys.ann.remove(&key);
+                    continue;
+                }
+                if sys.deferred.contains(&key.0) && !released.contains(&key.0) {
+                    cur.push((
+                        format!("C11/advertised-while-deferred/{kind}"),
+                        format!("{}: {} {} was handed to the neighbours although family {} is still deferred (pending {:?})", op_name(o), fname(&c.family), c.net, fname(&c.family), sys.pending),
+                    ));
+                }
+                let ct = content(&c.current_paths);
+                // a route op (a new UPDATE / API call) legitimately re-announces; only the
+                // dumps issued by deferral events count towards "exactly once"
+                let route_op = matches!(kind, "insert" | "remove");
+                match sys.ann.get_mut(&key) {
+                    Some((old, n)) if *old == ct && !route_op => *n += 1,
+                    _ => {
+                        sys.ann.insert(key, (ct, 1));
+                    }
+                }
+            }
+        }
+        // every prefix of a released family announced exactly once since its last change
+        for f in &self.families {
+            let fk = fkey(f);
+            let is_released = !sys.deferred.contains(&fk) || released.contains(&fk);
+            for c in sys.tables.collect_loc_rib_paths(*f) {
+                let key = (fk, format!("{}", c.net));
+                let ct = content(&c.current_paths);
+                let (announced, n) = sys.ann.get(&key).cloned().unwrap_or_default();
+                if is_released && announced != ct {
+                    cur.push((
+                        format!("C11/not-announced-after-release/{kind}"),
+                        format!("{}: family {} is released but the current paths of {} were never announced", op_name(o), fname(f), c.net),
+                    ));
+                }
+                if n > 1 {
+                    cur.push((
+                        format!("C11/announced-twice/{kind}"),
+                        format!("{}: {} {} was announced {} times without changing in between", op_name(o), fname(f), c.net, n),
+                    ));
+                }
+            }
+        }
+        // ---- completion / restarting flag
+        let (cleared, timer_armed) = sys.rt.block_on(async {
+            let g = sys.global.read().await;
+            (g.selection_deferral.is_none(), g.selection_deferral_timer.is_some())
+        });
+        if cleared != (sys.phase == Phase::Done) {
+            cur.push((
+                format!("C11/completion/{}", if cleared { "early" } else { "stuck" }),
+                format!("{}: restarting state cleared = {}, but the reference says phase {:?} with pending {:?}", op_name(o), cleared, sys.phase, sys.pending),
+            ));
+        }
+        if pre_phase == Phase::Awaiting && sys.phase == Phase::Deferring && !timer_armed {
+            cur.push(("C11/timer-not-started".into(), format!("{}: first helper established but the selection-deferral timer was not started", op_name(o))));
+        }
+        let mut now = BTreeSet::new();
+        for (sig, what) in cur {
+            let clause = sig.split('/').nth(1).unwrap_or("").to_string();
+            if !sys.broken.contains(&clause) && !now.contains(&clause) {
+                out.push((sig, what));
+            }
+            now.insert(clause);
+        }
+        sys.broken = now;
+        true
+    }
+
+    fn fingerprint(&self, sys: &Sys) -> Vec<u8> {
+        let machine = sys.rt.block_on(async {
+            let g = sys.global.read().await;
+            match &g.selection_deferral {
+                Some(rd) => crate::gr::verif_gr::fp_restarting(rd),
+                None => "None".into(),
+            }
+        });
+        let mut rib = Vec::new();
+        for f in &self.families {
+            let mut v: Vec<String> = sys
+                .tables
+                .collect_paths(table::TableQuery::Global, *f, vec![], true)
+                .iter()
+                .map(|d| format!("{}:{:?}", d.net, d.paths.iter().map(|p| p.source.remote_addr).collect::<Vec<_>>()))
+                .collect();
+            v.sort();
+            rib.push(format!("{}{:?}", fname(f), v));
+        }
+        format!("{machine}|{:?}|{:?}|{:?}|{:?}|{:?}|{:?}|{:?}", rib, sys.up, sys.pending, sys.phase, sys.ann, sys.broken, self.released(sys)).into_bytes()
+    }
+
+    fn observe(&self, sys: &Sys) -> u64 {
+        (sys.phase as u64) * 16 + self.released(sys).len() as u64
+    }
+}
+
+fn subsets(c: &[Family]) -> Vec<Vec<Family>> {
+    let mut out = Vec::new();
+    for m in 0..(1u32 << c.len()) {
+        out.push(c.iter().enumerate().filter(|(i, _)| m & (1 << i) != 0).map(|(_, f)| *f).collect());
+    }
+    out
+}
+
+fn mk_model(name: &str, config: Vec<Vec<Family>>, nf: usize) -> DeferModel {
+    let families = fams(nf);
+    let mut ops = Vec::new();
+    for (p, c) in config.iter().enumerate() {
+        for s in subsets(c) {
+            ops.push(Op::Est(p, s));
+        }
+    }
+    for p in 0..config.len() {
+        for f in &families {
+            ops.push(Op::Eor(p, *f));
+        }
+        ops.push(Op::Withdrawn(p));
+    }
+    ops.push(Op::Timer);
+    for f in &families {
+        ops.push(Op::InsertLocal(*f, 0));
+        ops.push(Op::InsertLocal(*f, 1));
+        ops.push(Op::InsertPeer(0, *f, 1));
+        ops.push(Op::RemovePeer(0, *f, 1));
+    }
+    DeferModel { name: name.into(), config, families, ops }
+}
+
+fn models(thorough: bool) -> Vec<DeferModel> {
+    let (v4, v6, mc) = (Family::IPV4, Family::IPV6, Family::IPV4_MC);
+    let mut v = vec![
+        mk_model("c11-2peers-a", vec![vec![v4], vec![v4, v6]], 2),
+        mk_model("c11-2peers-nongr", vec![vec![v4, v6], vec![v6], vec![]], 2),
+        mk_model("c11-1peer", vec![vec![v4, v6]], 2),
+    ];
+    if thorough {
+        v.push(mk_model("c11-3peers-3fam", vec![vec![v4, v6], vec![v6, mc], vec![v4, mc]], 3));
+    }
+    v
+}
+
+pub(crate) fn run(replay: Option<&str>) -> Report {
     let mut rep = Report::new("C11", "hd-c11");
-    rep.machinery_error = Some("harness not built yet".into());
+    let ms = models(true);
+    if let Some(case) = replay {
+        let Some((name, hist)) = bfs::decode_case(case) else {
+            rep.machinery_error = Some("bad replay case".into());
+            return rep;
+        };
+        let Some(m) = ms.iter().find(|m| m.name == name) else {
+            rep.machinery_error = Some(format!("unknown model {name}"));
+            return rep;
+        };
+        eprintln!("replay {}", bfs::render(m, &hist));
+        rep.violations_from(bfs::replay(m, &hist, true));
+        rep.evaluations = 1;
+        return rep;
+    }
+    let thorough = rep.thorough();
+    let depth = if thorough { 7 } else { 5 };
+    rep.rule = format!("explicit-state BFS (depth {depth}) over peer-established(any subset of the configured GR families) / End-of-RIB / peer-withdrawn / timer events interleaved with route inserts/removes, on the real RestartingDeferral driven through the daemon's own glue (process_effects, process_restarting_outputs, timer handler) with a 2-shard TableManager observed by a registered neighbour channel; reference = pending-set model from the statement; non-trivial = distinct canonical (machine, RIB, announcement counts) state");
+    for m in models(thorough) {
+        let cfg = BfsCfg { max_depth: depth, max_secs: if thorough { 1200 } else { 40 }, ..Default::default() };
+        bfs::bfs(&m, &cfg, &mut rep);
+    }
     rep
 }
